@@ -125,7 +125,8 @@ CLAIMED = {
              'the Cp table and the valid range: a table is accepted iff its data agree with what is there, whether two files are both accepted does '
              'not depend on their order, and when they are the merged table is the same map and the merged range the same interval; at the '
              'level of whole LIBRARIES GroupLibrary.Update is proved to work group by group and two libraries merged into a third in either order '
-             'leave every group with the same table and range (C13_library_update_groupwise, C13_library_order_free; for deeper '
+             'leave every group with the same table and range - also stated for a library FILE with two includes loaded in either order '
+             '(C13_library_update_groupwise, C13_library_order_free, C13_two_includes_order_free, C13_loaded_keys_unique; for deeper '
              'include trees and the reference values order-freeness is decided by the tree oracle; for files sharing one T_ref the merged reference enthalpy AND entropy are the other file\'s value where given - after the tolerance comparison - else the value there: C13_update_H_same_Tref, C13_update_S_same_Tref). IDEMPOTENCE: merging the same correlation a second '
              'time succeeds and returns the identical correlation - table, range, reference enthalpy and entropy, re-fit (C13_update_twice, for any '
              'reflexive isclose). '
